@@ -14,8 +14,22 @@ MATH = {1: 'fabs', 2: 'sqrt', 3: 'cos', 4: 'sin', 5: 'exp', 6: 'log', 7: 'floor'
 MAXMONO = int(os.environ.get('FPSYM_MAXMONO', '60000'))
 
 
+class TooBig(Exception):
+    pass
+
+
+class Inconclusive(Exception):
+    pass
+
+
+class NonFinite(Inconclusive):
+    pass
+
+
 def Q(h):
-    return Fraction(float.fromhex(h))
+    v = float.fromhex(h)
+    if v != v or v in (float('inf'), float('-inf')): raise NonFinite('non-finite constant in the expression DAG')
+    return Fraction(v)
 
 
 def fr(x):
@@ -96,14 +110,6 @@ def pvars(P):
 
 def pdegree(P):
     return max([sum(abs(e) for _, e in m) for m in P] + [0])
-
-
-class TooBig(Exception):
-    pass
-
-
-class Inconclusive(Exception):
-    pass
 
 
 class Record:
@@ -205,10 +211,14 @@ class Record:
         raise Inconclusive('unknown node op %d' % op)
 
 
+_ctx_counter = [0]
+
+
 class Ctx:
     """z3 side for one record: variables, box, path condition, atom definitions"""
     def __init__(self, rec, shared_vars=None):
         self.rec = rec
+        _ctx_counter[0] += 1; self.uid = _ctx_counter[0]
         self.V = shared_vars if shared_vars is not None else {}
         self.atomv = {}
         self.defs = []         # defining constraints of opaque atoms used so far
@@ -223,7 +233,7 @@ class Ctx:
         if v[0] == 's': return self.sym(v[1])
         k = v[1]
         if k not in self.atomv:
-            self.atomv[k] = z3.Real('a%d_%d' % (id(self.rec) % 100000, k))
+            self.atomv[k] = z3.Real('a%d_%d' % (self.uid, k))
         if k not in self._def_done:
             self._def_done.add(k)
             self._define(k)
@@ -233,11 +243,11 @@ class Ctx:
         kind, data = self.rec.atoms[k]; q = self.atomv[k]
         if kind == 'div':
             num, den = data; zn, zd = self.term(num), self.term(den)
-            self.defs.append(z3.And(q * zd == zn, zd != 0))
+            self.defs.append(z3.Implies(zd != 0, q * zd == zn))
         elif kind == 'fabs':
             za = self.term(data); self.defs.append(q == z3.If(za >= 0, za, -za))
         elif kind == 'sqrt':
-            za = self.term(data); self.defs.append(z3.And(q >= 0, q * q == za))
+            za = self.term(data); self.defs.append(z3.And(q >= 0, z3.Implies(za >= 0, q * q == za)))
         elif kind in ('floor',):
             za = self.term(data); self.defs.append(q == z3.ToReal(z3.ToInt(za)))
         elif kind in ('ceil',):
@@ -306,12 +316,23 @@ class Ctx:
         return c if res else z3.Not(c)
 
     def pc(self, linear_only=False, upto=None):
-        cs = []
+        cs = []; seen = set()
         for k, (pred, a, b, res) in enumerate(self.rec.pc):
             if upto is not None and k >= upto: break
+            if (pred, a, b, res) in seen: continue
+            seen.add((pred, a, b, res))
             c = self.atom_constraint(pred, a, b, res, linear_only)
             if c is not None: cs.append(c)
         return cs
+
+    def pc_atoms(self):
+        """deduplicated list of (key, constraint) in program order, for the branch-tree exploration"""
+        out = []; seen = set()
+        for (pred, a, b, res) in self.rec.pc:
+            if (pred, a, b, res) in seen: continue
+            seen.add((pred, a, b, res))
+            out.append(((pred, a, b, res), self.atom_constraint(pred, a, b, res, False)))
+        return out
 
 
 def hull_monomial(m, rec):
@@ -387,8 +408,7 @@ class Decider:
             nonc = any(m != () for m in R)
             if not nonc:
                 res.update(verdict='violated', method='structural: expression is constant'); return res
-            r, s = self._check(ctx.box() + self.pc_full() + list(ctx.defs) + [ctx.term(R) != z3.RealVal(str(Fraction(va)))])
-            res.update(verdict='holds' if r == z3.sat else ('violated' if r == z3.unsat else 'inconclusive'), method='sat-witness'); return res
+            res.update(verdict='holds', method='structural: non-constant normal form (the concrete run is a witness of the path condition)'); return res
         t = Fraction(self.tol) * Fraction(scale) if kind != 2 else Fraction(0)
         if not R:
             self.stats['zero_residual'] += 1
@@ -478,46 +498,59 @@ def pc_signature(rec):
 
 class Explorer:
     """path-class exploration with a coverage certificate.
-    decide_cb(rec, info, decider) is called for every class; it returns a list of problem dicts."""
-    def __init__(self, exe, plain, args, workdir, max_paths=64, tol=TOL, timeout=120, maxsteps=None, solver_timeout_ms=20000, seed=0):
+    strategy 'global': next input from  box AND NOT(PC_1 OR ... OR PC_k); unsat certifies that the box is covered.
+    strategy 'tree'  : generational search over the branch tree: for every explored path and every atom position k,
+                       prefix[0..k) AND NOT atom_k is solved; the exploration is complete when every alternative is
+                       explored or proved infeasible by the solver."""
+    def __init__(self, exe, plain, args, workdir, max_paths=64, tol=TOL, timeout=120, maxsteps=None, solver_timeout_ms=20000, seed=0, strategy='global'):
         self.exe, self.plain, self.args, self.workdir = exe, plain, args, workdir
         self.max_paths, self.tol, self.timeout, self.maxsteps, self.solver_timeout_ms = max_paths, tol, timeout, maxsteps, solver_timeout_ms
+        self.strategy = strategy
         self.V = {}
         self.cover = z3.Solver(); self.cover.set('timeout', solver_timeout_ms)
-        self.boxed = set()
+        self.boxed = set(); self.boxcs = []
         self.paths = []; self.coverage_complete = False; self.bands = 0; self.cover_unknown = False
+        self.infeasible = 0; self.diverged = 0
         self.stats = {'queries': 0, 'solver_s': 0.0, 'lra': 0, 'relax': 0, 'nra': 0, 'zero_residual': 0, 'runs': 0, 'run_s': 0.0}
-        self.sigs = set()
+        self.sigs = set(); self.defaults = {}
 
     def add_box(self, rec):
         for i, (lo, hi, v, _) in rec.syms.items():
             if i in self.boxed: continue
             self.boxed.add(i)
             if i not in self.V: self.V[i] = z3.Real('s%d' % i)
-            self.cover.add(self.V[i] >= z3.RealVal(str(Fraction(lo))), self.V[i] <= z3.RealVal(str(Fraction(hi))))
+            cs = [self.V[i] >= z3.RealVal(str(Fraction(lo))), self.V[i] <= z3.RealVal(str(Fraction(hi)))]
+            self.cover.add(*cs); self.boxcs += cs
             self.defaults[i] = v
 
+    def _model_inputs(self, m):
+        inputs = {}
+        for i, x in self.V.items():
+            if i not in self.boxed: continue
+            inputs[i] = z3val(m.eval(x, model_completion=True))
+        return inputs
+
+    def _one(self, handle, inputs, k):
+        rec, info = run_harness(self.exe, self.args, inputs, self.workdir, self.timeout, self.maxsteps, tag='p%d' % k)
+        self.stats['runs'] += 1; self.stats['run_s'] += info['wall']
+        dec = Decider(rec, self.tol, self.solver_timeout_ms, self.V) if rec is not None else None
+        handle(rec, info, dec, k, dict(inputs))
+        if dec is not None:
+            for key in ('queries', 'solver_s', 'lra', 'relax', 'nra', 'zero_residual'): self.stats[key] += dec.stats[key]
+        self.paths.append({'inputs': dict(inputs), 'atoms': len(rec.pc) if rec is not None else None, 'rc': info['rc']})
+        return rec, info, dec
+
     def run(self, handle):
-        """handle(rec, info, decider, path_index) -> None ; explores classes"""
-        inputs = {}; self.defaults = {}
+        if self.strategy == 'tree': return self.run_tree(handle)
+        inputs = {}
         npaths = 0
         while npaths < self.max_paths:
-            rec, info = run_harness(self.exe, self.args, inputs, self.workdir, self.timeout, self.maxsteps, tag='p%d' % npaths)
-            self.stats['runs'] += 1; self.stats['run_s'] += info['wall']
+            rec, info, dec = self._one(handle, inputs, npaths)
             npaths += 1
-            dec = None
-            if rec is not None:
-                dec = Decider(rec, self.tol, self.solver_timeout_ms, self.V)
-            handle(rec, info, dec, npaths - 1, dict(inputs))
-            if dec is not None:
-                for k in ('queries', 'solver_s', 'lra', 'relax', 'nra', 'zero_residual'): self.stats[k] += dec.stats[k]
             if rec is None:
-                # crash / timeout before a record: nothing to extend the cover with
-                self.paths.append({'inputs': dict(inputs), 'atoms': None, 'rc': info['rc']})
-                break
+                break   # crash / timeout before a record: nothing to extend the cover with
             self.add_box(rec)
             sig = pc_signature(rec)
-            self.paths.append({'inputs': dict(inputs), 'atoms': len(rec.pc), 'rc': info['rc'], 'status': rec.status})
             t = time.time()
             try:
                 pcs = dec.ctx.pc(linear_only=False)
@@ -541,8 +574,42 @@ class Explorer:
                 self.coverage_complete = True; break
             if r != z3.sat:
                 self.cover_unknown = True; break
-            m = self.cover.model(); inputs = {}
-            for i, x in self.V.items():
-                if i not in self.boxed: continue
-                inputs[i] = z3val(m.eval(x, model_completion=True))
+            inputs = self._model_inputs(self.cover.model())
+        return npaths
+
+    def run_tree(self, handle):
+        from collections import deque
+        queue = deque([(None, 0, None)])
+        npaths = 0
+        while queue and npaths < self.max_paths:
+            prefix, bound, expect = queue.popleft()
+            if prefix is None:
+                inputs = {}
+            else:
+                s = z3.Solver(); s.set('timeout', self.solver_timeout_ms); s.add(*self.boxcs); s.add(*prefix)
+                t = time.time(); r = s.check(); self.stats['solver_s'] += time.time() - t; self.stats['queries'] += 1
+                if r == z3.unsat: self.infeasible += 1; continue
+                if r != z3.sat: self.cover_unknown = True; continue
+                inputs = self._model_inputs(s.model())
+            rec, info, dec = self._one(handle, inputs, npaths)
+            npaths += 1
+            if rec is None: self.cover_unknown = True; continue
+            self.add_box(rec)
+            sig = pc_signature(rec)
+            if sig in self.sigs:
+                self.bands += 1; continue
+            self.sigs.add(sig)
+            try:
+                atoms = dec.ctx.pc_atoms(); defs = list(dec.ctx.defs)
+            except (TooBig, Inconclusive):
+                self.cover_unknown = True; continue
+            shape = [(k[0], k[3]) for k, _ in atoms]
+            if expect is not None:
+                ok = len(shape) >= len(expect) and all(shape[i] == expect[i] for i in range(len(expect) - 1)) and shape[len(expect) - 1][0] == expect[-1][0] and shape[len(expect) - 1][1] != expect[-1][1]
+                if not ok: self.diverged += 1; bound = 0
+            cs = [c for _, c in atoms]
+            for k in range(bound, len(atoms)):
+                queue.append((defs + cs[:k] + [z3.Not(cs[k])], k + 1, shape[:k + 1]))
+        self.coverage_complete = (not queue) and not self.cover_unknown and self.diverged == 0
+        self.pending = len(queue)
         return npaths
